@@ -126,6 +126,8 @@ type c05MX struct {
 	tlsaAD   bool // AD on the TLSA lookup
 	chain    byte // 0: [leaf, issuer]; '1'..'6': a further certificate in the chain (see the op line description)
 	tlsa     byte // n none, e EE matching, t TA matching, m mismatching, u unusable only, f SERVFAIL,
+	// R / N / F: the TLSA query is answered with RCODE REFUSED / NOTIMP / FORMERR, G: with a datagram that is no DNS message
+	// (round 10: a lookup can fail in more than one way),
 	// p EE record of the extra certificate, i EE record of the issuer, a TA record of the extra certificate
 	reqtls   bool // server implements REQUIRETLS
 	slow     bool // the TLSA answers for this host are delayed (fault sequence: lookup latency)
@@ -134,7 +136,12 @@ type c05MX struct {
 	alias    byte
 	tlsaI    byte // TLSA RRset at _25._tcp.<MX name>: n none (NXDOMAIN), e, t, m, u, f as for tlsa
 	tlsaIAD  bool // AD on that lookup
-	cnameErr bool // the CNAME-type query for the MX name fails (SERVFAIL)
+	cnameErr bool // the CNAME-type query for the MX name fails (SERVFAIL, or the RCODE cnameRc names)
+	cnameRc  byte // 0 SERVFAIL, else R / N / F as for tlsa (only with cnameErr)
+	// the ADDRESS queries (A and AAAA) of the DNSSEC-aware resolver for the MX host are answered with an RCODE: 0 no, f / R / N / F
+	// as for tlsa (field aAD of the op line: the letter instead of the bit).  The plain resolver the connection is made with
+	// still knows the address: whether DANE applies to the host cannot be determined.
+	addrRc byte
 	// address families of the (canonical) host name: 0 an A record only, '6' an AAAA record only, 'b' both.  One zone, one AD bit: aAD is the AD bit of
 	// whichever address RRsets exist.
 	fam byte
@@ -292,9 +299,17 @@ func (m c05MX) String() string {
 	if m.crash != 0 {
 		slow += string(m.crash)
 	}
-	s := fmt.Sprintf("%d.%s.%c.%s.%s.%s.%s.%c.%s.%s", m.srv, up, m.starttls, cert, c05b(m.stsMatch), c05b(m.aAD), c05b(m.tlsaAD), m.tlsa, c05b(m.reqtls), slow)
+	aAD := c05b(m.aAD)
+	if m.addrRc != 0 {
+		aAD = string(m.addrRc)
+	}
+	s := fmt.Sprintf("%d.%s.%c.%s.%s.%s.%s.%c.%s.%s", m.srv, up, m.starttls, cert, c05b(m.stsMatch), aAD, c05b(m.tlsaAD), m.tlsa, c05b(m.reqtls), slow)
 	if m.alias != 0 {
-		s += fmt.Sprintf(".%c%c%s%s", m.alias, m.tlsaI, c05b(m.tlsaIAD), c05b(m.cnameErr))
+		ce := c05b(m.cnameErr)
+		if m.cnameErr && m.cnameRc != 0 {
+			ce = string(m.cnameRc)
+		}
+		s += fmt.Sprintf(".%c%c%s%s", m.alias, m.tlsaI, c05b(m.tlsaIAD), ce)
 	}
 	return s
 }
@@ -353,7 +368,21 @@ func (h c05Hist) Op() string {
 	return fmt.Sprintf("C05 hist %s %s %s %s", h.cfg, h.doms[0], h.doms[1], strings.Join(ms, "/"))
 }
 
-const c05TLSAKinds = "netmufpia"
+const c05TLSAKinds = "netmufpiaRNFG"
+
+// lookups that FAIL: the kind letter says how.  'f' is the failure the scripted zone itself produces (mockdns answers
+// SERVFAIL); R, N, F are answers with another RCODE, given by the DNS front end.  A failure is a failure: which RCODE a
+// resolver chooses to say "I cannot tell you" with (cf. maddy issue #287: resolvers that answer TLSA queries with NOTIMP)
+// changes nothing about the fact that it is unknown whether the MX requires DANE authentication.
+// G is not an RCODE at all: the answer is a datagram too short to be a DNS message — the exchange itself fails (an I/O error
+// of the resolver, at once: no time-out involved).
+const c05FailKinds = "fRNFG"
+
+const c05Garbled = -1
+
+var c05FailRcode = map[byte]int{'f': miekgdns.RcodeServerFailure, 'R': miekgdns.RcodeRefused, 'N': miekgdns.RcodeNotImplemented, 'F': miekgdns.RcodeFormatError, 'G': c05Garbled}
+
+func c05KindFails(kind byte) bool { return strings.IndexByte(c05FailKinds, kind) >= 0 }
 
 // a record kind needs the certificate it refers to in the presented chain
 func c05KindOK(kind, chain byte) bool {
@@ -377,6 +406,11 @@ func c05ParseMX(s string) (c05MX, error) {
 	}
 	m := c05MX{srv: srv, up: f[1][0] == '1', starttls: f[2][0], cert: f[3][0], stsMatch: f[4] == "1", aAD: f[5] == "1",
 		tlsaAD: f[6] == "1", tlsa: f[7][0], reqtls: f[8] == "1", slow: strings.HasPrefix(f[9], "1")}
+	if len(f[5]) == 1 && c05KindFails(f[5][0]) {
+		m.addrRc, m.aAD = f[5][0], true
+	} else if f[5] != "0" && f[5] != "1" {
+		return c05MX{}, errors.New("bad aAD field " + s)
+	}
 	if len(f[9]) == 2 {
 		if m.crash = f[9][1]; !strings.ContainsRune("act", rune(m.crash)) {
 			return c05MX{}, errors.New("bad crash stage " + s)
@@ -402,7 +436,13 @@ func c05ParseMX(s string) (c05MX, error) {
 		if len(a) != 4 || (a[0] != 's' && a[0] != 'i') || !strings.ContainsRune(c05TLSAKinds, rune(a[1])) || !c05KindOK(a[1], m.chain) {
 			return c05MX{}, errors.New("bad alias " + s)
 		}
-		m.alias, m.tlsaI, m.tlsaIAD, m.cnameErr = a[0], a[1], a[2] == '1', a[3] == '1'
+		m.alias, m.tlsaI, m.tlsaIAD, m.cnameErr = a[0], a[1], a[2] == '1', a[3] != '0'
+		if !strings.ContainsRune("01RNFG", rune(a[3])) {
+			return c05MX{}, errors.New("bad alias (CNAME query) " + s)
+		}
+		if a[3] != '0' && a[3] != '1' {
+			m.cnameRc = a[3]
+		}
 	}
 	return m, nil
 }
@@ -902,6 +942,9 @@ func c05TLSAZone(z map[string]mockdns.Zone, pki *c05PKI, tn string, kind byte, m
 		z[tn] = mockdns.Zone{AD: ad, Err: &net.DNSError{Err: "scripted failure"}}
 		return
 	}
+	if c05KindFails(kind) {
+		return // answered by the DNS front end (c05FailRcodes); nothing is published
+	}
 	var rrs []miekgdns.RR
 	for _, r := range c05TLSARecs(pki, kind, m.cert, m.chain) {
 		rrs = append(rrs, tlsaRecord(tn, r.usage, r.mtype, r.selector, r.data)[miekgdns.Type(miekgdns.TypeTLSA)]...)
@@ -990,6 +1033,33 @@ func c05Zones(h c05Hist, pki *c05PKI) map[string]mockdns.Zone {
 		z[fmt.Sprintf("d%d.invalid.", di)] = mockdns.Zone{AD: d.mxAD, MX: mxs}
 	}
 	return z
+}
+
+// the queries of this world that the DNS front end answers with an RCODE of its own
+func c05FailRcodes(h c05Hist) map[string]int {
+	rcs := map[string]int{}
+	for _, d := range h.doms {
+		for _, m := range d.mxs {
+			names := c05TLSANames(m)
+			kinds := []byte{m.tlsa}
+			if m.alias != 0 {
+				kinds = []byte{m.tlsa, m.tlsaI}
+			}
+			for i, k := range kinds {
+				if k != 'f' && c05KindFails(k) {
+					rcs["TLSA/"+names[i]] = c05FailRcode[k]
+				}
+			}
+			if m.alias != 0 && m.cnameErr && m.cnameRc != 0 {
+				rcs["CNAME/"+c05MXHost(m)] = c05FailRcode[m.cnameRc]
+			}
+			if m.addrRc != 0 {
+				rcs["A/"+c05MXHost(m)] = c05FailRcode[m.addrRc]
+				rcs["AAAA/"+c05MXHost(m)] = c05FailRcode[m.addrRc]
+			}
+		}
+	}
+	return rcs
 }
 
 // c05Gate holds back one kind of lookup for domain 0 until it is released, and counts what arrives.
@@ -1173,6 +1243,7 @@ func c05Setup(t *testing.T, h c05Hist, pki *c05PKI, rng *vh.Rng, verbose bool) *
 	}
 	slow := map[string]bool{}
 	failCNAME := map[string]bool{}
+	failRc := c05FailRcodes(h)
 	for _, d := range h.doms {
 		for _, m := range d.mxs {
 			if m.slow {
@@ -1185,13 +1256,13 @@ func c05Setup(t *testing.T, h c05Hist, pki *c05PKI, rng *vh.Rng, verbose bool) *
 			}
 		}
 	}
-	if len(slow) > 0 || len(failCNAME) > 0 || env.gate != nil {
+	if len(slow) > 0 || len(failCNAME) > 0 || len(failRc) > 0 || env.gate != nil {
 		pc, err := net.ListenPacket("udp4", "127.0.0.1:0")
 		if err != nil {
 			t.Fatal(err)
 		}
 		started := make(chan struct{})
-		env.dnsFront = &miekgdns.Server{PacketConn: pc, Handler: c05SlowDNS{inner: dnsSrv, slow: slow, failCNAME: failCNAME, gate: env.gate}, NotifyStartedFunc: func() { close(started) }}
+		env.dnsFront = &miekgdns.Server{PacketConn: pc, Handler: c05SlowDNS{inner: dnsSrv, slow: slow, failCNAME: failCNAME, failRc: failRc, gate: env.gate}, NotifyStartedFunc: func() { close(started) }}
 		go env.dnsFront.ActivateAndServe()
 		<-started
 		tgt.extResolver.Cfg.Port = strconv.Itoa(pc.LocalAddr().(*net.UDPAddr).Port)
@@ -1318,6 +1389,7 @@ type c05SlowDNS struct {
 	inner     miekgdns.Handler
 	slow      map[string]bool // TLSA owner names whose answers are delayed
 	failCNAME map[string]bool // names whose CNAME-type query is answered SERVFAIL
+	failRc    map[string]int  // "<qtype>/<owner name>" -> RCODE the query is answered with (REFUSED, NOTIMP, FORMERR)
 	gate      *c05Gate        // overlapping deliveries: answers held back until released
 }
 
@@ -1354,6 +1426,17 @@ func (h c05SlowDNS) ServeDNS(w miekgdns.ResponseWriter, m *miekgdns.Msg) {
 			if q.Qtype == miekgdns.TypeTLSA && g.kind == 't' && (strings.HasSuffix(name, ".d0.invalid.") || name == "_25._tcp.h1.canon.invalid." || name == "_25._tcp.h2.canon.invalid.") {
 				g.wait(nil)
 			}
+		}
+		if rc, ok := h.failRc[miekgdns.TypeToString[q.Qtype]+"/"+name]; ok {
+			if rc == c05Garbled {
+				w.Write([]byte{0xde, 0xad, 0xbe, 0xef, 0x00})
+				return
+			}
+			reply := new(miekgdns.Msg)
+			reply.SetRcode(m, rc)
+			reply.RecursionAvailable = true
+			w.WriteMsg(reply)
+			return
 		}
 		if q.Qtype == miekgdns.TypeCNAME && h.failCNAME[name] {
 			reply := new(miekgdns.Msg)
@@ -2356,7 +2439,7 @@ func c05FindMX(h c05Hist, srv int) (int, c05MX) {
 func c05Governing(m c05MX) (string, byte) {
 	atBase := func(kind byte, ad bool) (string, byte) {
 		switch {
-		case kind == 'f':
+		case c05KindFails(kind):
 			return "fail", 0
 		case kind == 'n' || !ad:
 			return "none", 0
@@ -2370,6 +2453,10 @@ func c05Governing(m c05MX) (string, byte) {
 	}
 	// A lookup that CRASHES has not answered: whatever it was needed for is not known — the discovery has failed as soon
 	// as a lookup it needs is one that crashes (the address lookups are always needed: they decide whether DANE applies).
+	// the same for address lookups that are answered with a failure RCODE
+	if m.addrRc != 0 {
+		return "fail", 0
+	}
 	switch m.crash {
 	case 'a':
 		return "fail", 0
@@ -2675,9 +2762,13 @@ func c05GenMX(r *vh.Rng, srv int) c05MX {
 		stsMatch: r.Chance(65),
 		aAD:      r.Chance(70),
 		tlsaAD:   r.Chance(75),
-		tlsa:     pickB(c05TLSAKinds, 25, 18, 13, 10, 9, 16, 5, 2, 2),
+		tlsa:     pickB(c05TLSAKinds, 25, 18, 13, 10, 9, 8, 5, 2, 2, 3, 3, 2, 2),
 		reqtls:   r.Chance(60),
 		slow:     r.Chance(4),
+	}
+	// the DNSSEC-aware resolver cannot look the host up at all
+	if r.Chance(4) {
+		m.addrRc, m.aAD = c05FailKinds[r.Intn(len(c05FailKinds))], true
 	}
 	// address families of the host: IPv6-only, dual-stack, no address at all
 	switch k := r.Intn(100); {
@@ -2694,9 +2785,12 @@ func c05GenMX(r *vh.Rng, srv int) c05MX {
 	// name, the canonical name more often in a signed zone (both base domains are then consulted)
 	if r.Chance(35) {
 		m.alias = pickB("si", 75, 25)
-		m.tlsaI = pickB(c05TLSAKinds, 30, 16, 11, 10, 8, 18, 4, 2, 1)
+		m.tlsaI = pickB(c05TLSAKinds, 30, 16, 11, 10, 8, 9, 4, 2, 1, 3, 3, 2, 2)
 		m.tlsaIAD = r.Chance(75)
 		m.cnameErr = r.Chance(12)
+		if m.cnameErr && r.Chance(50) {
+			m.cnameRc = "RNFG"[r.Intn(4)]
+		}
 		if r.Chance(50) {
 			m.aAD = true
 		}
@@ -2726,6 +2820,7 @@ func c05GenMX(r *vh.Rng, srv int) c05MX {
 // MX's certificate; the authenticated RRset pins the genuine certificate (DANE-EE) — or a certificate off the path (DANE-TA)
 func c05Impostor(r *vh.Rng, m *c05MX) {
 	m.up, m.starttls, m.aAD, m.tlsaAD = true, 'o', true, true
+	m.addrRc = 0
 	if m.fam == 'x' {
 		m.fam = 'b'
 	}
@@ -2796,13 +2891,14 @@ func c05GenHist(r *vh.Rng) c05Hist {
 				if r.Chance(70) {
 					m.starttls, m.cert = 'o', 'v'
 				}
-				if m.tlsa == 'f' || m.tlsa == 'm' {
+				if c05KindFails(m.tlsa) || m.tlsa == 'm' {
 					m.tlsa = 'n'
 				}
-				if m.tlsaI == 'f' || m.tlsaI == 'm' {
+				if c05KindFails(m.tlsaI) || m.tlsaI == 'm' {
 					m.tlsaI = 'n'
 				}
 				m.cnameErr = false
+				m.addrRc = 0
 				m.stsMatch = true
 			}
 		}
@@ -2833,6 +2929,7 @@ func c05CrashWorld(r *vh.Rng, h *c05Hist) {
 		}
 		some = true
 		m.crash = "aattc"[r.Intn(5)]
+		m.addrRc = 0
 		m.up = true
 		if m.starttls == 'c' || m.starttls == 'h' {
 			m.starttls = "os"[r.Intn(2)]
@@ -3625,7 +3722,7 @@ func c05BaseDomain(m c05MX) string {
 	case !m.aAD:
 		return "insecure-target.initial-name"
 	}
-	if k := m.tlsa; k == 'f' || (k != 'n' && m.tlsaAD) {
+	if k := m.tlsa; c05KindFails(k) || (k != 'n' && m.tlsaAD) {
 		return "canonical-name"
 	}
 	return "secure.fallback-to-initial-name"
@@ -3647,6 +3744,10 @@ func c05ErrKind(e string) string {
 		{"TLS not available due", "starttls-refused"},
 		{"connection refused", "mx-down"},
 		{"SERVFAIL", "tlsa-servfail"},
+		{"rcode REFUSED", "lookup-refused"},
+		{"rcode NOTIMP", "lookup-notimp"},
+		{"rcode FORMERR", "lookup-formerr"},
+		{"short read", "lookup-io-error"},
 	} {
 		if strings.Contains(e, k[0]) {
 			return k[1]
